@@ -523,7 +523,7 @@ def check(rep: Report, tier: str, seed: int, prop: str = None):
                 seen = set()
                 for r in recs:
                     r["kind"] = "request"
-                    r["tol_ms"] = 500
+                    r["tol_ms"] = 2        # logical clock (sig_impl.LogicalClock): stamped when sent = read when received
                     r["nonce_repeated"] = bool(r["nonce"]) and r["nonce"] in seen
                     if r["nonce"]:
                         seen.add(r["nonce"])
